@@ -568,6 +568,16 @@ impl<'a> Peripheral<'a> {
                     let event = match telegram {
                         crate::fdl::Telegram::Data(t) => {
                             let data_ok = match t.is_response().unwrap() {
+                                _ if t.h.dsap != crate::consts::SAP_MASTER_DATA_EXCHANGE
+                                    || t.h.ssap != crate::consts::SAP_SLAVE_DATA_EXCHANGE =>
+                                {
+                                    log::warn!(
+                                        "Got response from #{} with unexpected SAPs, ignoring!",
+                                        self.address
+                                    );
+                                    false
+                                }
+
                                 crate::fdl::ResponseStatus::SapNotEnabled => {
                                     log::warn!(
                                 "Got \"SAP not enabled\" response from #{}, revalidating config...",
